@@ -198,43 +198,7 @@ func checkBidStrategy(p *core.Prog, r *core.Report, ds *core.Describer, rel stri
 	// every response WITHOUT eligibility carries no bid: sends of response literals on arms before verification have bid unset — implied by the above (bid-carrying sends are all guarded).
 
 	// nothing unverified leaves the worker as state (deadline strategy keeps firstBid/lastBid between rounds)
-	for _, f := range fns {
-		var prov *ssa.Call
-		core.EachInstr(f, func(in ssa.Instruction) {
-			if c, ok := in.(*ssa.Call); ok && c.Call.IsInvoke() && c.Call.Method.Name() == "BuilderBid" {
-				prov = c
-			}
-		})
-		if prov == nil || f.Signature.Results().Len() < 2 {
-			continue
-		}
-		var verify *ssa.Call
-		for _, ci := range core.Calls(f, func(c *ssa.CallCommon) bool {
-			cf := c.StaticCallee()
-			return cf != nil && cf.Pkg == f.Pkg && strings.Contains(strings.ToLower(cf.Name()), "verify")
-		}) {
-			verify, _ = ci.(*ssa.Call)
-		}
-		if verify == nil {
-			continue
-		}
-		for i, ret := range core.ReturnsOf(f) {
-			for j, res := range ret.Results {
-				for _, lf := range core.PhiLeaves(res, ret) {
-					if !ds.D(lf.V).MentionsValue(prov) {
-						continue
-					}
-					w := core.UnguardedLeaf(ds, f, prov, lf, func(c core.Cond) int { return core.ErrNilSucc(c, verify) })
-					w0 := core.PathQuery{Fn: f, From: prov, Target: func(x ssa.Instruction) bool { return x == lf.At }, Avoid: func(x ssa.Instruction) bool { return x == ssa.Instruction(verify) }}.Find()
-					if w0 != nil {
-						w = w0
-					}
-					r.Check(w == nil, "C09.a", fmt.Sprintf("%s|%s|return#%d.%d|verified-state-only", tag, core.FnKey(f), i+1, j+1), p.Pos(ret.Pos()), "relay data is carried over to later rounds only after verification",
-						"a bid that failed (or skipped) verification is kept as the relay's last bid: later eligible bids of that relay are then measured against an ineligible one and dropped", p.WitnessText(w)...)
-				}
-			}
-		}
-	}
+	checkVerifiedStateOnly(p, r, ds, "C09.a", tag, fns, "a bid that failed (or skipped) verification is kept as the relay's last bid: later eligible bids of that relay are then measured against an ineligible one and dropped")
 
 	// ---- (a/b) signature verifier ----
 	for _, f := range fns {
@@ -736,4 +700,47 @@ func checkRelayBidCache(p *core.Prog, r *core.Report, ds *core.Describer) {
 		}
 		r.Floor("C09.f returns serving a cached bid", n, 2)
 	}
+}
+
+// checkVerifiedStateOnly: a worker that keeps relay data between rounds (returns it) returns data of this round's
+// response only on paths where the verification call returned nil.
+func checkVerifiedStateOnly(p *core.Prog, r *core.Report, ds *core.Describer, rule, tag string, fns []*ssa.Function, consequence string) {
+	for _, f := range fns {
+		var prov *ssa.Call
+		core.EachInstr(f, func(in ssa.Instruction) {
+			if c, ok := in.(*ssa.Call); ok && c.Call.IsInvoke() && c.Call.Method.Name() == "BuilderBid" {
+				prov = c
+			}
+		})
+		if prov == nil || f.Signature.Results().Len() < 2 {
+			continue
+		}
+		var verify *ssa.Call
+		for _, ci := range core.Calls(f, func(c *ssa.CallCommon) bool {
+			cf := c.StaticCallee()
+			return cf != nil && cf.Pkg == f.Pkg && strings.Contains(strings.ToLower(cf.Name()), "verify")
+		}) {
+			verify, _ = ci.(*ssa.Call)
+		}
+		if verify == nil {
+			continue
+		}
+		for i, ret := range core.ReturnsOf(f) {
+			for j, res := range ret.Results {
+				for _, lf := range core.PhiLeaves(res, ret) {
+					if !ds.D(lf.V).MentionsValue(prov) {
+						continue
+					}
+					w := core.UnguardedLeaf(ds, f, prov, lf, func(c core.Cond) int { return core.ErrNilSucc(c, verify) })
+					w0 := core.PathQuery{Fn: f, From: prov, Target: func(x ssa.Instruction) bool { return x == lf.At }, Avoid: func(x ssa.Instruction) bool { return x == ssa.Instruction(verify) }}.Find()
+					if w0 != nil {
+						w = w0
+					}
+					r.Check(w == nil, rule, fmt.Sprintf("%s|%s|return#%d.%d|verified-state-only", tag, core.FnKey(f), i+1, j+1), p.Pos(ret.Pos()), "relay data is carried over to later rounds only after verification",
+						consequence, p.WitnessText(w)...)
+				}
+			}
+		}
+	}
+
 }
